@@ -107,6 +107,11 @@ def search(pid, unit, failure, tier='quick', seed=0):
     deadline = time.time() + BUDGET_S.get(tier, 25)
     rng = random.Random(seed or 1)
     if unit in DELTA_UNITS:
+        if pid == 'C17':
+            from . import witness_header
+            w = witness_header.search(time.time() + BUDGET_S.get(tier, 25) * 0.6, rng)
+            if w:
+                return w
         inputs = itertools.chain(SEEDS_DELTA, _corpus(), _token_soup(4 if tier == 'quick' else 6, rng, 4000 if tier == 'quick' else 60000))
         hit = _run_many('delta', inputs, deadline, _crashes)
         if hit:
@@ -114,9 +119,6 @@ def search(pid, unit, failure, tier='quick', seed=0):
             return {'mode': 'delta', 'input_utf8_lossy': data.decode('utf-8', 'replace')[:2000], 'input_hex': data.hex()[:8000],
                     'observed': r, 'expected': 'the second-generation front end neither panics nor crashes on any byte string',
                     'how': 'replay_runner delta <file> (scratch crate with a path dependency on the repository working tree)'}
-        if unit in ('U-HDR', 'U-PARSE') and pid == 'C17':
-            from . import witness_header
-            return witness_header.search(deadline, rng)
         return None
     if unit == 'U-LABEL':
         from . import witness_alpha
